@@ -242,6 +242,15 @@ impl Req {
     }
 }
 
+/// a byte with a destructor that poisons it
+#[repr(transparent)]
+pub struct ByteTok(u8);
+impl Drop for ByteTok {
+    fn drop(&mut self) {
+        unsafe { std::ptr::write_volatile(&mut self.0, !self.0) }
+    }
+}
+
 fn pay(ent: EntityId) -> Pay {
     Pay::new(fresh_e(), ent)
 }
@@ -297,6 +306,12 @@ pub fn do_send<ES: evenio::event::EventSet>(s: &Sender<'static, ES>, req: &Req) 
                 let text: String = arena_text(no, len);
                 let st: &'static mut str = s.alloc_str(&text);
                 unsafe { &*(st.as_bytes() as *const [u8]) }
+            } else if len % 4 == 0 && len > 0 && len <= 65536 {
+                // elements with a destructor: the arena never runs it, so a byte that was dropped (poisoned by `ByteTok::drop`)
+                // before delivery shows as a corrupted payload (round-8 change C20_X_1: a drop guard in `alloc_slice` that
+                // destroys all but the last element on the normal path)
+                let sl: &'static mut [ByteTok] = s.alloc_slice(len, |i| ByteTok(arena_byte(no, i)));
+                unsafe { &*(sl as *const [ByteTok] as *const [u8]) }
             } else {
                 let sl: &'static mut [u8] = s.alloc_slice(len, |i| arena_byte(no, i));
                 sl
